@@ -14,17 +14,19 @@ def sh(cmd, cwd=None, env=ENV, timeout=3600):
     return p.returncode, p.stdout
 def main():
     ID = sys.argv[1]
-    checks = [ID]; tier = "quick"; skip_suite = False
+    checks = [ID]; tier = "quick"; skip_suite = False; srcroot = "/tmp/seedout"; offset = 0
     a = sys.argv[2:]
     while a:
         x = a.pop(0)
         if x == "--checks": checks = a.pop(0).split(",")
         elif x == "--tier": tier = a.pop(0)
         elif x == "--skip-suite": skip_suite = True
-    src = "/tmp/seedout/" + ID
+        elif x == "--src": srcroot = a.pop(0)
+        elif x == "--offset": offset = int(a.pop(0))
+    src = srcroot + "/" + ID
     for pf in sorted(glob.glob(src + "/patch*.diff")):
         i = re.search(r"patch(\d+)\.diff", pf).group(1)
-        out = "/verif/seeded/%s-%s" % (ID, i)
+        out = "/verif/seeded/%s-%d" % (ID, int(i) + offset)
         os.makedirs(out, exist_ok=True)
         meta = {}
         mf = src + "/meta%s.json" % i
@@ -51,6 +53,7 @@ def main():
             m = re.search(r"cp \S+ (\S+)", dc)
             dst = m.group(1) if m else "seeded_demo%s_test.go" % i
             pre = "/tmp/seedwt/%s/" % ID
+            if dst.startswith("/tmp/seedwt5/%s/" % ID): pre = "/tmp/seedwt5/%s/" % ID
             if dst.startswith(pre):
                 dst = dst[len(pre):]
             elif dst.startswith("/"):
@@ -87,8 +90,16 @@ def main():
             res["checks"] = det
             res["detected"] = any(v["exit"] == 1 for v in det.values())
         shutil.copy(pf, out + "/patch.diff")
+        if skip_suite and os.path.exists(out + "/meta.json"):
+            try:
+                old = json.load(open(out + "/meta.json"))
+                for k, v in old.items():
+                    if k.startswith("suite_"): res[k] = v
+                if old.get("demo_fails_with") and not res.get("demo_fails_with") and res.get("demo_passes_without"):
+                    res["demo_fails_with_note"] = "failed with the change in an earlier evaluation; schedule-dependent demo"
+            except Exception: pass
         json.dump(res, open(out + "/meta.json", "w"), indent=1)
-        print(ID, i, {k: res.get(k) for k in ("applies", "demo_passes_without", "demo_fails_with", "suite_consistent_failures", "detected")}, {c: v["violation_keys"][:4] for c, v in res.get("checks", {}).items()})
+        print(ID, int(i) + offset, {k: res.get(k) for k in ("applies", "demo_passes_without", "demo_fails_with", "suite_consistent_failures", "detected")}, {c: v["violation_keys"][:4] for c, v in res.get("checks", {}).items()})
         sh("git -C /repo worktree remove --force %s" % wt); shutil.rmtree(wt, ignore_errors=True)
     # restore the instrumented build and evidence of the real tree
     sh("./run.sh build", cwd="/verif")
